@@ -78,6 +78,9 @@ class RunTaskExecutable(Operation):
     def start_execution(
         self, ctx: Context, slot: Optional[int]
     ) -> OperationExecutionHandle:
+        # N.B. The abort handler below needs to know whether the process has
+        # been started yet.
+        process = None
         try:
             self._output_path.mkdir(parents=True, exist_ok=True)
 
